@@ -3,6 +3,7 @@ import ReplicatProofs.Lemmas.SchedLocks
 import ReplicatProofs.Lemmas.SchedFin
 import ReplicatProofs.Lemmas.SchedLife
 import ReplicatProofs.Lemmas.SchedLat
+import ReplicatProofs.Lemmas.SlotQ
 import ReplicatProofs.Properties.C01
 /-!
 # C09 — snapshot and restore do not depend on thread or I/O scheduling
@@ -724,5 +725,79 @@ theorem result_schedule_independent (r : Bool) (n : Nat) (hn : 0 < n) (evs : Lis
     rw [hlen]; exact (reverse_perm _).trans hproc
   have hperm := C01.records_perm files (spansFrom 0 lens) hs st.processed.reverse horder i f hf
   exact ⟨hperm, C01.restore_file_exact strm f hle lens hsum hfe _ hperm old ws hws⟩
+
+
+/-! ## S6 — thread affinity of the slot queue (`ReplicatModel/SlotQ.lean`)
+
+`Slots`, `Lat` and `Life` above treat a slot request, its grant and the give-back as atomic events.  The queue is an `asyncio` queue:
+that atomicity holds only when every step of the queue runs on the event-loop thread.  `Gen.slotQueueOnLoopOnly` is read from the
+source: every use of the queue attribute is inside a coroutine or inside the arguments of `call_soon_threadsafe` /
+`run_coroutine_threadsafe`. -/
+
+/-- **The slot queue is only ever touched on the loop thread** — the extracted fact the three theorems below are about; an edit that
+lets a loader thread use the queue itself (`self._slots.put_nowait(slot)` in the thread-side manager) makes this stop compiling. -/
+theorem slot_queue_thread_affine :
+    Gen.slotQueueOnLoopOnly = true ∧ 2 ≤ Gen.slotQueueThreadSideRefs ∧ 1 ≤ Gen.slotQueueLoopSideRefs := by decide
+
+/-- **An on-loop action is exactly its micro-steps, uninterrupted**: the macro system is a sub-system of the micro system
+(refinement by construction, stated so that it cannot drift). -/
+theorem slot_queue_action_is_microsteps (σ : SlotQ.Q) (a : SlotQ.Act) :
+    SlotQ.astep σ a = SlotQ.run σ (SlotQ.expand σ a) := rfl
+
+/-- **No lost wake-up on the loop thread.**  For every number of slots `n ≥ 1` and EVERY sequence of requests, getter runs, give-backs
+and idle periods performed as loop callbacks: slots are conserved, no getter is ever between its emptiness test and its registration
+when a callback ends, and whenever a getter is parked either a woken getter is runnable on an awake loop or some slot is still held
+(its give-back will wake one) — a getter never sleeps on a non-empty queue. -/
+theorem slot_queue_no_lost_wakeup (n : Nat) (hn : 0 < n) (as : List SlotQ.Act) (σ : SlotQ.Q)
+    (h : SlotQ.arun (SlotQ.init n) as = some σ) :
+    σ.items + σ.held = n ∧ σ.sawEmpty = 0 ∧
+    (σ.parked > 0 → (σ.ready > 0 ∧ σ.asleep = false) ∨ σ.held > 0) ∧ SlotQ.lostWakeup σ = false := by
+  obtain ⟨hc, hs, hp, hz⟩ := SlotQ.arun_inv n _ σ as (SlotQ.init_inv n) h
+  have key : σ.parked > 0 → (σ.ready > 0 ∧ σ.asleep = false) ∨ σ.held > 0 := by
+    intro hpk
+    have hle := hp hpk
+    by_cases hh : σ.held > 0
+    · exact Or.inr hh
+    · left
+      have hi : σ.items = n := by omega
+      have hr : σ.ready > 0 := by omega
+      refine ⟨hr, ?_⟩
+      cases ha : σ.asleep with
+      | false => rfl
+      | true => have := (hz ha).1; omega
+  refine ⟨hc, hs, key, ?_⟩
+  unfold SlotQ.lostWakeup
+  by_cases hr : σ.ready > 0
+  · have ha : σ.asleep = false := by
+      cases ha : σ.asleep with
+      | false => rfl
+      | true => have := (hz ha).1; omega
+    have : (σ.ready == 0) = false := by simp; omega
+    simp [this, ha]
+  · by_cases hpk : σ.parked > 0
+    · rcases key hpk with ⟨hr', _⟩ | hh
+      · exact absurd hr' hr
+      · have : (σ.held == 0) = false := by simp; omega
+        simp [this]
+    · have h1 : decide (σ.parked + σ.ready > 0) = false := by simp; omega
+      simp [h1]
+
+/-- **A give-back executed by the loader thread itself loses a wake-up** (kernel-checked schedule, one slot, two loaders): the getter
+tested the queue while the slot was held, the foreign `put_nowait` found nobody to wake, the getter then registered: it is parked on a
+queue that holds the slot, nothing is held, nothing is ready — nothing will ever happen. -/
+theorem foreign_put_loses_wakeup :
+    (SlotQ.run (SlotQ.init 1) SlotQ.foreignPutSchedule).map (fun σ => (σ.items, σ.parked, σ.held, σ.ready, SlotQ.lostWakeup σ))
+      = some (1, 1, 0, 0, true) := by decide
+
+/-- **… and without any unlucky timing** when the loop sleeps in `select()`: the properly parked getter's future is resolved from the
+foreign thread, its continuation is put on the ready list of a loop nobody wakes. -/
+theorem foreign_wake_sleeping_loop :
+    (SlotQ.run (SlotQ.init 1) SlotQ.foreignWakeSchedule).map (fun σ => (σ.items, σ.parked, σ.held, σ.ready, σ.asleep, SlotQ.lostWakeup σ))
+      = some (1, 0, 0, 1, true, true) := by decide
+
+/-- non-vacuity: an on-loop history with two loaders and one slot in which the second loader really parks, is woken by the give-back
+and gets the slot -/
+example : (SlotQ.arun (SlotQ.init 1) [.request, .runFresh, .request, .runFresh, .idle, .giveBack, .runWoken, .giveBack]).map
+    (fun σ => (σ.items, σ.parked, σ.held)) = some (1, 0, 0) := by decide
 
 end Replicat.C09
